@@ -446,7 +446,7 @@ class CachedStringifyMapper(StringifyMapper, CachedMapper):
         CachedMapper.__init__(self)
 
     def __call__(self, expr, prec=PREC_NONE, *args, **kwargs):
-        return CachedMapper.__call__(expr, prec, *args, **kwargs)
+        return CachedMapper.__call__(self, expr, prec, *args, **kwargs)
 
 # }}}
 
